@@ -16,6 +16,7 @@ Result(t) ==
     [] t.op = "div"   -> Close(Div(t.a, t.b, 12), t.want, -42)
     [] t.op = "exp"   -> IF t.want.s = 0 THEN Le(Exp(t.a, 12), Sci(1, -5000)) ELSE Close(Exp(t.a, 12), t.want, -38)
     [] t.op = "expm1n"-> Close(Expm1Neg(t.a, 12), t.want, -38)
+    [] t.op = "cos"   -> CloseScaled(Cos(t.a, 12), t.want, -38, One)
     [] t.op = "close" -> Close(t.a, t.b, t.n) = (t.want.s = 1)
     [] t.op = "sci"   -> Eq(Sci(t.n, t.k), t.want)
     [] t.op = "fromint" -> Eq(FromInt(t.n), t.want)
